@@ -460,18 +460,30 @@ class Gen:
         """seeded arguments of a well-formed request"""
         r = self.rng
         if ep == "alloc":
-            return {"body": "ok", "shnums": sorted(r.sample(SHNUMS, r.randint(0, 3))), "size": r.randint(3, 6) if self.base else r.randint(1, 5)}
+            return {"body": "ok", "shnums": sorted(r.sample(SHNUMS, r.choice([0, 1, 1, 2, 2, 3]))), "size": r.randint(3, 6) if self.base else r.randint(1, 5)}
         if ep == "write":
-            size = self.uploads.get((si, sh), (None, 4))[1]
-            off = r.randint(0, size) if r.random() < 0.92 else size + 1
-            ln = r.choice([1, 1, 2, 2, 3, size, size + 1])
-            if r.random() < 0.5:
-                ln = max(1, min(ln, size - off))       # mostly inside the share, so that uploads complete
+            up = self.uploads.get((si, sh))
+            size = up[1] if up else 4
+            need = up[2] if up else list(range(size))
+            x = r.random()
+            if need and x < 0.6:
+                # a chunk of what is still missing, anywhere in it (out of order), of random length
+                off = r.choice(need)
+                run = 1
+                while off + run in need:
+                    run += 1
+                ln = r.randint(1, run)
+            elif x < 0.9:
+                off = r.randint(0, max(0, size - 1))          # overlapping / rewriting, inside the share
+                ln = r.randint(1, max(1, size - off))
+            else:
+                off = r.randint(0, size + 1)                   # running past the end
+                ln = r.choice([1, 2, size, size + 1])
             d = self.data(ln)
             self.note(d)
             return {"cr": "ok", "off": off, "data": d}
         if ep in ("iread", "mread"):
-            return {"rng": "ok", "off": r.randint(0, 7), "len": r.randint(1, 8) if ep == "iread" else r.choice([1, 2, 3, 5, 9, 60])}
+            return {"rng": "ok", "off": r.choice([0, 0, 1, 1, 2, 3, 4, 5, 7]), "len": r.randint(1, 8) if ep == "iread" else r.choice([1, 2, 3, 5, 9, 60])}
         if ep == "rtw":
             return {"body": "ok", "tw": self.tw(srv.obs(si)), "rv": [{"off": r.randint(0, 8), "len": r.randint(0, 9)} for _ in range(r.choice([0, 1, 2]))]}
         if ep in ("icorrupt", "mcorrupt"):
@@ -492,15 +504,20 @@ def pick_target(g, srv, ep):
         si = r.choice(SISI)
     sh = ""
     if ep in ("write", "abort"):
-        live = [k for k in g.uploads if k[0] == si]
-        if live and r.random() < 0.85:
-            sh = r.choice(live)[1]
+        live = sorted(g.uploads)
+        if live and r.random() < 0.92:
+            si, sh = r.choice(live)
         else:
             sh = r.choice(SHNUMS)
     elif ep in ("iread", "icorrupt", "mread", "mcorrupt"):
-        o = srv.obs(si)
-        have = [s for s in SHNUMS if o[s].get("st") == "final" or o[s].get("present")]
-        sh = r.choice(have) if have and r.random() < 0.85 else r.choice(SHNUMS)
+        have = []
+        for s2 in (SISI if ep in ("iread", "icorrupt") else SISM):
+            o = srv.obs(s2)
+            have += [(s2, s) for s in SHNUMS if o[s].get("st") == "final" or o[s].get("present")]
+        if have and r.random() < 0.85:
+            si, sh = r.choice(have)
+        else:
+            sh = r.choice(SHNUMS)
     return si, sh
 
 
@@ -514,6 +531,8 @@ def well_formed(g, srv, ep):
     """a request a legitimate client would send (right swissnum, right secrets)"""
     si, sh = pick_target(g, srv, ep)
     us = g.uploads.get((si, sh), (None,))[0] if ep in ("write", "abort") else None
+    if ep in ("write", "abort") and not g.uploads and g.rng.random() < 0.9:
+        return well_formed(g, srv, "alloc")          # nothing to write to: start an upload instead
     we = correct_we(srv, si, g.rng) if ep == "rtw" else None
     return {"ep": ep, "auth": ["correct"], "hdrs": g.good_hdrs(ep, us=us, we=we), "si": si, "sh": sh, "a": g.args(ep, srv, si, sh)}
 
@@ -523,9 +542,11 @@ def after(g, r, status, body):
     if r["ep"] == "alloc" and status == 200 and body.get("k") == "alloc":
         us = [h["val"] for h in r["hdrs"] if h["kind"] == "us"][-1]
         for sh in body["allocated"]:
-            g.uploads[(r["si"], sh)] = (us, r["a"]["size"])
+            g.uploads[(r["si"], sh)] = [us, r["a"]["size"], list(range(r["a"]["size"]))]
     if r["ep"] == "write" and status == 201:
         g.uploads.pop((r["si"], r["sh"]), None)
+    if r["ep"] == "write" and status == 200 and body.get("k") == "required" and (r["si"], r["sh"]) in g.uploads:
+        g.uploads[(r["si"], r["sh"])][2] = list(body["req"])
     if r["ep"] == "abort" and status == 200:
         g.uploads.pop((r["si"], r["sh"]), None)
 
@@ -826,7 +847,7 @@ def twin_trace(rng, work, nevents, zero_read):
             if op == "wrongsecret":
                 if not g.uploads:
                     continue
-                (si, sh), (us, size) = rng.choice(sorted(g.uploads.items()))
+                (si, sh), (us, size, _need) = rng.choice(sorted(g.uploads.items()))
                 ep = rng.choice(["write", "abort"])
                 r = {"ep": ep, "auth": ["correct"], "hdrs": [g.hdr("us", rng.choice([u for u in US if u != us]))], "si": si, "sh": sh,
                      "a": g.args(ep, h, si, sh)}
